@@ -429,6 +429,172 @@ def asan_summary(err):
     return keep[:14]
 
 
+# ---------------------------------------------------------------------------------------------------------------
+# COVER: every declaration of the six anchored headers (inventory extracted by factgen.py from the clang AST on every run:
+# members incl. private/protected and implicit ones, fields, aliases, bases, namespace-level functions, `explicit`
+# specifiers)  ->  (theorems / obligations, execution counters of this run that must all be > 0)  or  an out-of-scope
+# reason.  Counters: "<op>:<K>" = history operations of that kind that took effect on a wrapper of kind K (V ArrayView,
+# O OwnedArray, F FixedArray, W FixedArrayView; src/asrc also ":arr" / ":vec" for the container type), "obs" = wrapper
+# observations (each one calls size, data, begin, end, cbegin, cend, operator[], at, operator bool, operator T*),
+# "D..." = DataView cases, "ct" = compile-time check in the harness (static_assert), "facts" = PropertiesFacts.facts_match.
+# The check FAILS CLOSED on a declaration that is not in the table, a table entry that no longer exists (vanished or
+# changed signature) and a covered entry one of whose counters is 0.
+T_ACC = ["at_ok_iff", "iteration_exact", "owning_wrapper_observations_valid", "facts_match"]
+T_INV = ["array_inv", "invariant_preserved"]
+COVER = {
+    "bases AbstractArray : -": (T_INV, ["obs"]),
+    "bases ArrayView : public AbstractArray<T>": (T_INV, ["obs:V"]),
+    "bases OwnedArray : public AbstractArray<T>": (T_INV, ["obs:O"]),
+    "bases FixedArray : public AbstractArray<T>": (T_INV, ["obs:F"]),
+    "bases FixedArrayView : public AbstractArray<T>": (T_INV, ["obs:W"]),
+    "bases DataView : -": (["dataview_offset"], ["D"]),
+    # AbstractArray
+    "AbstractArray::AbstractArray : void () noexcept [protected,=default]": (["invariant_initial", "facts_match"], ["def:V", "def:O", "def:F", "def:W"]),
+    "AbstractArray::AbstractArray : void (const AbstractArray<T> &) noexcept [implicit,=default]": (["owned_survives_copy", "facts_match"], ["cc:V", "cc:F", "cc:W"]),
+    "AbstractArray::operator= : AbstractArray<T> &(const AbstractArray<T> &) noexcept [implicit,=default]": (["invariant_preserved", "facts_match"], ["ca:V", "ca:F", "ca:W"]),
+    "AbstractArray::~AbstractArray : void () noexcept [virtual,=default]": (["no_leak", "refcounts_exact"], ["del:V", "del:O", "del:W", "ct"]),
+    "AbstractArray::at : T &(size_t) const": (T_ACC, ["obs"]),
+    "AbstractArray::begin : T *() const": (T_ACC, ["obs"]),
+    "AbstractArray::end : T *() const": (T_ACC, ["obs"]),
+    "AbstractArray::cbegin : const T *() const": (T_ACC, ["obs"]),
+    "AbstractArray::cend : const T *() const": (T_ACC, ["obs"]),
+    "AbstractArray::data : T *() const": (T_ACC, ["obs"]),
+    "AbstractArray::size : size_t () const": (T_ACC, ["obs"]),
+    "AbstractArray::operator[] : T &(size_t) const": (T_ACC, ["obs", "w:O", "w:F", "w:V", "w:W"]),
+    "AbstractArray::operator bool : bool () const": (T_ACC, ["obs"]),
+    "AbstractArray::operator T * : T *() const": (T_ACC, ["obs"]),
+    "AbstractArray::setPtr : void (T *, size_t) [protected]": (["array_inv", "facts_match"], ["facts", "src:V:vec", "resize:O", "fixn:F", "fview:W"]),
+    "field AbstractArray::ptr : T * [private]": (["array_inv", "facts_match"], ["facts", "obs"]),
+    "field AbstractArray::numItems : size_t [private]": (["array_inv", "facts_match"], ["facts", "obs"]),
+    # ArrayView
+    "ArrayView::ArrayView : void () [=default]": (T_INV, ["def:V"]),
+    "ArrayView::ArrayView : void (T *, size_t)": (["view_of_wrapper", "facts_match"], ["pw:V", "ptr:V"]),
+    "ArrayView::ArrayView : void (std::vector<T> &)": (["view_aliases", "facts_match"], ["src:V:vec"]),
+    "template<size_t N> ArrayView::ArrayView : void (std::array<T, N> &)": (["view_aliases", "facts_match"], ["src:V:arr"]),
+    "ArrayView::ArrayView : void (const ArrayView<T> &) noexcept [implicit,=default]": (["invariant_preserved", "facts_match"], ["cc:V"]),
+    "ArrayView::operator= : ArrayView<T> &(const ArrayView<T> &) noexcept [implicit,=default]": (["invariant_preserved", "facts_match"], ["ca:V"]),
+    "ArrayView::operator= : ArrayView<T> &(std::vector<T> &)": (["invariant_preserved", "facts_match"], ["asrc:V:vec"]),
+    "template<size_t N> ArrayView::operator= : ArrayView<T> &(std::array<T, N> &)": (["invariant_preserved", "facts_match"], ["asrc:V:arr"]),
+    "ArrayView::reset : void ()": (["invariant_preserved", "facts_match"], ["reset:V"]),
+    "ArrayView::reset : void (T *, size_t)": (["invariant_preserved", "facts_match"], ["rptr:V", "rw:V"]),
+    "ArrayView::~ArrayView : void () noexcept [=default]": (["no_leak"], ["del:V"]),
+    "utility::make_ArrayView : template ArrayView<T> (T *, size_t)": (["view_aliases (same as the (T*, size_t) constructor)"], ["ptr:V"]),
+    # OwnedArray
+    "OwnedArray::OwnedArray : void () [=default]": (T_INV, ["def:O"]),
+    "OwnedArray::OwnedArray : void (T *, size_t)": (["from_wrapper", "owned_independent", "facts_match"], ["ptr:O", "pw:O"]),
+    "OwnedArray::OwnedArray : void (std::vector<T> &)": (["owned_independent", "facts_match"], ["src:O:vec"]),
+    "template<size_t N> OwnedArray::OwnedArray : void (std::array<T, N> &)": (["owned_independent", "facts_match"], ["src:O:arr"]),
+    "OwnedArray::OwnedArray : void (const OwnedArray<T> &)": (["owned_survives_copy", "ownedarray_copy_refuted", "facts_match"], ["cc:O"]),
+    "OwnedArray::OwnedArray : void (OwnedArray<T> &&)": (["owned_survives_move", "facts_match"], ["mc:O"]),
+    "OwnedArray::operator= : OwnedArray<T> &(const OwnedArray<T> &)": (["invariant_preserved", "frame_step", "facts_match"], ["ca:O"]),
+    "OwnedArray::operator= : OwnedArray<T> &(OwnedArray<T> &&)": (["invariant_preserved", "frame_step", "facts_match"], ["ma:O"]),
+    "OwnedArray::operator= : OwnedArray<T> &(std::vector<T> &)": (["owned_independent", "facts_match"], ["asrc:O:vec"]),
+    "template<size_t N> OwnedArray::operator= : OwnedArray<T> &(std::array<T, N> &)": (["owned_independent", "facts_match"], ["asrc:O:arr"]),
+    "OwnedArray::reset : void ()": (["invariant_preserved", "facts_match"], ["reset:O"]),
+    "OwnedArray::reset : void (T *, size_t)": (["reset_from_wrapper", "reset_from_own_range", "facts_match"], ["rptr:O", "rw:O"]),
+    "OwnedArray::resize : void (size_t, const T &)": (["resize_tracks", "resize_from_own_element", "facts_match"], ["resize:O", "rr:O"]),
+    "OwnedArray::~OwnedArray : void () noexcept [=default]": (["no_leak", "refcounts_exact"], ["del:O"]),
+    "field OwnedArray::dataBuf : std::vector<T> [private]": (["refcounts_exact", "facts_match"], ["facts", "obs:O"]),
+    # FixedArray
+    "FixedArray::FixedArray : void () [=default]": (T_INV, ["def:F"]),
+    "FixedArray::FixedArray : void (size_t)": (["invariant_preserved", "facts_match"], ["fixn:F"]),
+    "FixedArray::FixedArray : void (T *, size_t)": (["from_wrapper", "owned_independent", "facts_match"], ["ptr:F", "pw:F"]),
+    "FixedArray::FixedArray : void (std::vector<T> &)": (["owned_independent", "facts_match"], ["src:F:vec"]),
+    "template<size_t N> FixedArray::FixedArray : void (std::array<T, N> &)": (["owned_independent", "facts_match"], ["src:F:arr"]),
+    "FixedArray::FixedArray : void (const FixedArray<T> &) noexcept [implicit,=default]": (["owned_survives_copy", "refcounts_exact", "facts_match"], ["cc:F"]),
+    "FixedArray::operator= : FixedArray<T> &(const FixedArray<T> &) noexcept [implicit,=default]": (["owned_survives_fview", "refcounts_exact", "facts_match"], ["ca:F"]),
+    "FixedArray::operator= : FixedArray<T> &(std::vector<T> &)": (["owned_survives_fview", "facts_match"], ["asrc:F:vec"]),
+    "template<size_t N> FixedArray::operator= : FixedArray<T> &(std::array<T, N> &)": (["owned_survives_fview", "facts_match"], ["asrc:F:arr"]),
+    "FixedArray::~FixedArray : void () noexcept [=default]": (["no_leak", "refcounts_exact"], ["del:F"]),
+    "field FixedArray::array : std::shared_ptr<T> [private]": (["refcounts_exact", "facts_match"], ["facts", "obs:F"]),
+    "using FixedArray::View : FixedArrayView<uint8_t>": (["owned_survives_fview (for T = uint8_t the alias is FixedArrayView<T>)"], ["ct", "fview:W"]),
+    # FixedArrayView
+    "FixedArrayView::FixedArrayView : void () [=default]": (T_INV, ["def:W"]),
+    "FixedArrayView::FixedArrayView : void (std::shared_ptr<FixedArray<T>> &, size_t, size_t)": (["owned_survives_fview", "fixedarrayview_reassign_refuted", "facts_match"], ["fview:W"]),
+    "FixedArrayView::FixedArrayView : void (const FixedArrayView<T> &) noexcept [implicit,=default]": (["refcounts_exact", "facts_match"], ["cc:W"]),
+    "FixedArrayView::operator= : FixedArrayView<T> &(const FixedArrayView<T> &) noexcept [implicit,=default]": (["refcounts_exact", "facts_match"], ["ca:W"]),
+    "FixedArrayView::~FixedArrayView : void () noexcept [=default]": (["no_leak", "refcounts_exact"], ["del:W"]),
+    "field FixedArrayView::data : std::shared_ptr<FixedArray<T>> [private]": (["refcounts_exact", "facts_match"], ["facts", "obs:W"]),
+    # DataView: wraps a caller-owned byte range without a length — it has no bounds of its own; the property only
+    # fixes WHICH bytes operator[] reads (i*stride); staying inside the wrapped range is the caller's precondition
+    "DataView::DataView : void () [=default]": (["dataview_offset"], ["D"]),
+    "DataView::DataView : void (const void *, size_t)": (["dataview_offset", "facts_match"], ["D:stride", "D:default_stride", "D:raw", "D:vec", "D:own"]),
+    "DataView::reset : void (const void *, size_t)": (["dataview_offset", "facts_match"], ["D:stride", "D:default_stride"]),
+    "DataView::operator[] : const T &(size_t) const": (["dataview_offset", "facts_match"], ["D", "D:overlap", "D:stride0"]),
+    "DataView::~DataView : void () [=default]": (["(trivial: owns nothing)"], ["D"]),
+    "field DataView::ptr : const rkcommon::byte_t * [protected]": (["dataview_offset", "facts_match"], ["facts", "D"]),
+    "field DataView::stride : size_t [protected]": (["dataview_offset", "facts_match"], ["facts", "D:stride"]),
+}
+OOS_EXPLICIT = ("`explicit` only restricts implicit conversions at call sites; what the call does is covered by the member's own "
+                "entry (listed so that adding or dropping it is noticed)")
+for _k in ("explicit AbstractArray: operator T *() const", "explicit ArrayView: ArrayView(T *data, size_t size)",
+           "explicit FixedArray: FixedArray(T *data, size_t size)", "explicit FixedArray: FixedArray(size_t size)",
+           "explicit OwnedArray: OwnedArray(T *data, size_t size)"):
+    COVER[_k] = ("oos", OOS_EXPLICIT)
+
+
+def exec_counters(cases, mlines, facts_ok, built):
+    """per-declaration execution counters from the histories that ran (the model's ok/skip and kind letters)"""
+    cnt = {"ct": 1 if built else 0, "facts": 1 if facts_ok else 0}
+
+    def bump(k, n=1):
+        cnt[k] = cnt.get(k, 0) + n
+    for c, ml in zip(cases, mlines):
+        t = c.split()
+        if t[0] == "D":
+            sz, stride = int(t[1]), int(t[3])
+            nb = 0 if t[4] == "-" else t[4].count(",") + 1
+            bump("D")
+            bump("D:default_stride" if stride == sz else "D:stride")
+            bump(("D:raw", "D:vec", "D:own")[nb % 3])
+            if stride == 0: bump("D:stride0")
+            elif stride < sz: bump("D:overlap")
+            continue
+        steps = ml.split(" ; ")
+        isarr = {}
+        prev = None
+        for tok, st in zip(t[1:], steps):
+            f = tok.split(":")
+            slots = st.split("|")[1].split(" ")
+            for sl in slots:
+                if sl != "-":
+                    bump("obs"); bump("obs:" + sl[0])
+            if f[0] == "sset" and st.startswith("ok|"):
+                isarr[f[1]] = (f[2] == "a" and (0 if f[3] == "-" else f[3].count(",") + 1) <= 6)
+            if st.startswith("ok|") and f[0] not in ("sset", "skill", "swrite"):
+                i = int(f[1])
+                kl = (prev if f[0] == "del" and prev else slots)[i][:1]
+                bump("%s:%s" % (f[0], kl))
+                if f[0] in ("src", "asrc"):
+                    k = f[3] if f[0] == "src" else f[2]
+                    bump("%s:%s:%s" % (f[0], kl, "arr" if isarr.get(k) else "vec"))
+            prev = slots
+    return cnt
+
+
+def inventory_check(ctx, inv, cnt):
+    """COVER vs the declarations of this tree; returns the evidence rows"""
+    rows = []
+    for d in inv:
+        ent = COVER.get(d)
+        if ent is None:
+            ctx.broken.append("declaration not in the C11 inventory table (new / changed member): %s" % d)
+            rows.append({"declaration": d, "status": "UNKNOWN"})
+        elif ent[0] == "oos":
+            rows.append({"declaration": d, "out_of_scope": ent[1]})
+        else:
+            ex = {k: cnt.get(k, 0) for k in ent[1]}
+            rows.append({"declaration": d, "theorems": ent[0], "executed": ex})
+            zero = [k for k, v in ex.items() if v == 0]
+            if zero:
+                ctx.broken.append("inventory entry %s: no executed case for %s in this run" % (d, ", ".join(zero)))
+    for d in COVER:
+        if d not in inv:
+            ctx.broken.append("inventory entry vanished or changed signature: %s" % d)
+            rows.append({"declaration": d, "status": "VANISHED"})
+    return rows
+
+
 KLETTER = {"ArrayView": "V", "OwnedArray": "O", "FixedArray": "F", "FixedArrayView": "W"}
 # (parameter kind, member) -> the history operation whose argument ALIASES the wrapper's own storage / the wrapper itself.
 # Derived per run from the signatures factgen.py extracts: every public by-reference / pointer parameter of every wrapper
@@ -568,6 +734,7 @@ def run(ctx):
             ctx.nontriv(c)
     for c in dcases:
         ctx.nontriv(c)
+    ctx.cov["inventory"] = inventory_check(ctx, facts.get("inventory") or [], exec_counters(cases, mlines, facts_ok, True))
     ctx.cov["op_histogram"] = hist
     ctx.cov["aliasing_variants_per_member_parameter"] = alias_coverage(ctx, facts.get("signatures") or [], alias_exec)
     ctx.cov["wrapper_kinds_in_final_states"] = kinds
